@@ -149,7 +149,13 @@ func (t *Typifier) infer(h ir.ExpressionHandle, kind ir.ExpressionKind) (TypeRes
 		return H(k.Type), t.typeOK(k.Type)
 
 	case ir.ExprCompose:
-		return H(k.Type), t.typeOK(k.Type)
+		if err := t.typeOK(k.Type); err != nil {
+			return TypeRes{}, err
+		}
+		if err := t.composeOK(k); err != nil {
+			return TypeRes{}, err
+		}
+		return H(k.Type), nil
 
 	case ir.ExprSplat:
 		in, err := t.inner(k.Value)
@@ -518,6 +524,16 @@ func (t *Typifier) binary(k ir.ExprBinary) (TypeRes, error) {
 	if l == nil || r == nil {
 		return TypeRes{}, fmt.Errorf("binary operand without type")
 	}
+	isValue := func(in ir.TypeInner) bool {
+		switch in.(type) {
+		case ir.ScalarType, ir.VectorType, ir.MatrixType:
+			return true
+		}
+		return false
+	}
+	if !isValue(l) || !isValue(r) {
+		return TypeRes{}, fmt.Errorf("binary operator %d applied to %s and %s", k.Op, TypeString(t.m, l), TypeString(t.m, r))
+	}
 	switch k.Op {
 	case ir.BinaryAdd, ir.BinarySubtract, ir.BinaryDivide, ir.BinaryModulo:
 		// scalar op vector broadcasts to the vector type (WGSL); otherwise the left type.
@@ -722,4 +738,86 @@ func (t *Typifier) wgulPointer(h ir.ExpressionHandle) (ir.ExpressionHandle, bool
 	}
 	p, ok := t.wgul[h]
 	return p, ok
+}
+
+// composeOK checks that the components of a Compose build a value of its type:
+// vector: scalars and vectors of the component scalar adding up to the size;
+// matrix: one column vector per column (or Columns*Rows scalars);
+// array: Size elements of the base type; struct: one value per member.
+func (t *Typifier) composeOK(k ir.ExprCompose) error {
+	m := t.m
+	comps := make([]ir.TypeInner, len(k.Components))
+	res := make([]TypeRes, len(k.Components))
+	for i, c := range k.Components {
+		r, err := t.Type(c)
+		if err != nil {
+			return err
+		}
+		res[i] = r
+		comps[i] = InnerOf(m, r)
+		if comps[i] == nil {
+			return fmt.Errorf("compose component [%d] has no type", c)
+		}
+	}
+	bad := func(why string) error {
+		return fmt.Errorf("compose of %s from %d components: %s", handleString(m, k.Type, 0), len(comps), why)
+	}
+	switch ty := m.Types[k.Type].Inner.(type) {
+	case ir.VectorType:
+		n := 0
+		for _, c := range comps {
+			switch x := c.(type) {
+			case ir.ScalarType:
+				if x != ty.Scalar {
+					return bad("component scalar " + scalarString(x))
+				}
+				n++
+			case ir.VectorType:
+				if x.Scalar != ty.Scalar {
+					return bad("component scalar " + scalarString(x.Scalar))
+				}
+				n += int(x.Size)
+			default:
+				return bad("component of type " + TypeString(m, c))
+			}
+		}
+		if n != int(ty.Size) {
+			return bad(fmt.Sprintf("%d scalar components for a vec%d", n, ty.Size))
+		}
+	case ir.MatrixType:
+		col := ir.VectorType{Size: ty.Rows, Scalar: ty.Scalar}
+		allCols, allScalars := len(comps) == int(ty.Columns), len(comps) == int(ty.Columns)*int(ty.Rows)
+		for _, c := range comps {
+			if v, ok := c.(ir.VectorType); !ok || v != col {
+				allCols = false
+			}
+			if s, ok := c.(ir.ScalarType); !ok || s != ty.Scalar {
+				allScalars = false
+			}
+		}
+		if !allCols && !allScalars {
+			return bad("components are neither the column vectors nor the scalars of the matrix")
+		}
+	case ir.ArrayType:
+		if ty.Size.Constant == nil || int(*ty.Size.Constant) != len(comps) {
+			return bad("wrong number of elements")
+		}
+		for _, r := range res {
+			if !ResEqual(m, r, H(ty.Base)) {
+				return bad("element of type " + ResString(m, r))
+			}
+		}
+	case ir.StructType:
+		if len(ty.Members) != len(comps) {
+			return bad("wrong number of members")
+		}
+		for i, r := range res {
+			if !ResEqual(m, r, H(ty.Members[i].Type)) {
+				return bad(fmt.Sprintf("member %d of type %s", i, ResString(m, r)))
+			}
+		}
+	default:
+		return bad("type is not constructible")
+	}
+	return nil
 }
